@@ -19,7 +19,7 @@
     outcome is a configuration value; when it returns is free.
 
     Executable model only; the proofs are in Proofs/Fallback.v. *)
-From Verif Require Import Base.Prelude Gen.FallbackFacts.
+From Verif Require Import Base.Prelude Gen.Constants Gen.FallbackFacts.
 From Coq Require Import FMapPositive.
 Open Scope N_scope.
 
@@ -45,6 +45,18 @@ Record params := mkP {
     statement order is the one tools/gofacts found in doFallback. *)
 Definition source_params (po so : outcome) (standby timer_may ddl_may ctx_may : bool) : params :=
   mkP po so standby fallback_send_before_done timer_may ddl_may ctx_may.
+
+(** ** Configuration path (newFallbackPlugin)
+<<
+   threshold := time.Duration(args.Threshold) * time.Millisecond
+   if threshold <= 0 { threshold = defaultFallbackThreshold }
+>>
+    [effective_threshold cfg] is the duration (ns) the threshold timer of
+    [doFallback] is armed with when [threshold: cfg] (ms) is configured; an
+    unset value is 0. [alwaysStandby] is the configured flag itself. *)
+Definition ns_per_ms : Z := 1000000.
+Definition effective_threshold (cfg : Z) : Z :=
+  if (cfg * ns_per_ms <=? 0)%Z then fallback_default_threshold else (cfg * ns_per_ms)%Z.
 
 (** ** State *)
 
